@@ -151,6 +151,13 @@ Theorem c10_collect_members : forall fuel name m acc ids,
 Proof. exact collect_sound. Qed.
 Print Assumptions c10_collect_members.
 
+(** fuel only bounds the saturate loops: a run that returns returns the same under more fuel *)
+Theorem c10_fuel_mono : forall (St R F I : Type) (step : St -> R -> St * RunReport I)
+    (holds : St -> F -> bool) fuel fuel', fuel <= fuel' ->
+  forall sched s res, exec step holds fuel s sched = Ok res -> exec step holds fuel' s sched = Ok res.
+Proof. exact @fuel_mono. Qed.
+Print Assumptions c10_fuel_mono.
+
 (** non-vacuity.  A toy engine: the state counts up to 3; ruleset 0 increments while below 3. *)
 Definition toy_step (s : nat) (r : nat) : nat * RunReport (nat * bool) :=
   step_of (fun s r => if (Nat.eqb r 0 && Nat.ltb s 3)%bool then (S s, (r, true)) else (s, (r, false)))
